@@ -68,7 +68,7 @@ func runC13fifo(run *mc.Run) int {
 	var samples []any
 	lat := map[string]float64{}
 	for _, which := range []string{"syslog-ingester", "auditlog-ingester"} {
-		for _, state := range []string{"waiting-for-writer", "idle-open-pipe", "partial-record-buffered", "after-some-records", "idle-after-slow-handoff", "idle-after-the-writer-was-replaced", "blocked-handing-over-downstream", "waiting-for-writer-path-removed", "waiting-for-writer-path-recreated", "event-write-in-progress"} {
+		for _, state := range []string{"waiting-for-writer", "idle-open-pipe", "partial-record-buffered", "after-some-records", "idle-after-slow-handoff", "idle-after-the-writer-was-replaced", "blocked-handing-over-downstream", "waiting-for-writer-path-removed", "waiting-for-writer-path-recreated", "event-write-in-progress", "huge-partial-record-buffered"} {
 			n++
 			name := which + "/" + state
 			path := filepath.Join(dir, fmt.Sprintf("c13-%d", n))
@@ -128,6 +128,13 @@ func runC13fifo(run *mc.Run) int {
 				case "partial-record-buffered":
 					_, _ = w.WriteString("77 Failed password for a from 1.2.3.4 port")
 					for fionread(w) > 0 {
+						time.Sleep(time.Millisecond)
+					}
+				case "huge-partial-record-buffered":
+					// 1.25 MiB without a terminator so far (more than any cap one would put on a record), writer
+					// still connected
+					_, _ = w.WriteString("77 Failed password for " + strings.Repeat("x", 1310720))
+					for until := time.Now().Add(3 * time.Second); fionread(w) > 0 && time.Now().Before(until); {
 						time.Sleep(time.Millisecond)
 					}
 				case "idle-after-slow-handoff":
@@ -221,7 +228,7 @@ func runC13fifo(run *mc.Run) int {
 		}
 	}
 	cov := mc.Coverage{Level: "fault_enumeration", Evaluations: n, Distinct: n, Exhaustive: true, Samples: samples,
-		Rule:  "cancellation injected into SyslogIngester.Ingest and AuditLogIngester.Ingest on real FIFOs in each blocking state: waiting for a writer to open the pipe, blocked reading an idle open pipe, holding a partial record, idle after some records, idle after a back-pressure episode in which downstream accepted nothing for 1.5 s (thorough 6 s), idle after the first writer left and a second one connected (if the worker serves it), parked inside the callback because downstream (correlator / record channel) never takes the hand-off, in the middle of a 400 ms event write; the worker must return within the bound and deliver nothing afterwards. distinct_nontrivial = cells (all are blocking states)",
+		Rule:  "cancellation injected into SyslogIngester.Ingest and AuditLogIngester.Ingest on real FIFOs in each blocking state: waiting for a writer to open the pipe, blocked reading an idle open pipe, holding a partial record (a short one; 1.25 MiB), idle after some records, idle after a back-pressure episode in which downstream accepted nothing for 1.5 s (thorough 6 s), idle after the first writer left and a second one connected (if the worker serves it), parked inside the callback because downstream (correlator / record channel) never takes the hand-off, in the middle of a 400 ms event write; the worker must return within the bound and deliver nothing afterwards. distinct_nontrivial = cells (all are blocking states)",
 		Extra: map[string]any{"bound_s": bound.Seconds(), "latency_s": lat}}
 	cov.Assumptions = []string{"real time: the bound (5 s) is three orders of magnitude above observed latencies; the OS scheduler is not controlled"}
 	return run.Finish(cov)
